@@ -25,6 +25,7 @@ OBLIGATIONS = (
     + [G("set.home%d" % h, "OP_SET", 5, Q if h in (0, 2, 4) else T, ["HOME=%d" % h], rc=RC + MS) for h in range(5)]
     + [G("mem.home%d" % h, "OP_MEM", 5, Q if h in (0, 3) else T, ["HOME=%d" % h]) for h in range(5)]
     + [G("rem.home%d" % h, "OP_REM", 5, Q if h in (1, 4) else T, ["HOME=%d" % h, "NO_OWNERSHIP"]) for h in range(5)]
+    + [G("rem.stopped.home1", "OP_REM", 5, Q, ["HOME=1", "NO_OWNERSHIP", "STOPPED"], known={"rem: the object is finalised once": "del-while-stopped", "rem: no longer a member": "del-while-stopped"})]
     + [G("sweep.noown.nc3", "OP_SWEEP", 5, Q, ["NO_OWNERSHIP"], nc=3, timeout=1800),
        G("sweep.own", "OP_SWEEP_OWN", 5, ("probe",), nc=2, timeout=1800, extra_unwind=RECB), G("sweep.own.swap", "OP_SWEEP_OWN", 5, ("probe",), ["SWAP"], nc=2, timeout=1800, extra_unwind=RECB),
        G("rem_pending.home1", "OP_REM_PENDING", 5, Q, ["HOME=1", "NO_OWNERSHIP"], nc=3), G("rem_pending.home4", "OP_REM_PENDING", 5, Q, ["HOME=4", "NO_OWNERSHIP"], nc=3),
